@@ -158,8 +158,10 @@ def fill(claim, na):
     claim("C16", "E2 mirse (message plane)", MP_TECH,
           "On the real model task of simulation::add_model (init().await then the receive loop) and SimInit::init: every model's init runs "
           "exactly once, inside SimInit::init, before that model processes any message, for benches whose init scripts send to models that are "
-          "not initialised yet (the messages are kept and processed afterwards: C03's obligations on the same runs), every task order. The naming "
-          "clause (parent.child) is decided in C06.", MP_NOTE + " Sub-model hierarchies are covered by C06's registration scenario only.",
+          "not initialised yet (the messages are kept and processed afterwards: C03's obligations on the same runs), including a hierarchy with "
+          "sub-models added by the parent's build through the real BuildContext::add_submodel (depth 2, an unnamed child): each model sees its "
+          "qualified name (parent.child, '<unknown>') in its Context; every task order.", MP_NOTE +
+          " Larger hierarchies (every forest up to 4 models) are covered structurally by C06's registration scenario.",
           "DESIGN.md §5 C16")
     na("C04", "The property is about the executors themselves: the multi-threaded idle/park hand-off, work stealing and parking on real threads "
               "(st3, parking) and the equivalence of the two executors. Kani has no threads; the MIR engine replaces the executor by a model "
